@@ -232,7 +232,7 @@ def native_replay(program, nslots=3, nbufs=3, sanitize=True, tag='replay'):
       except (IndexError, ValueError):
         continue
     report = None
-    # representation invariants on the native objects (same three as the symbolic check_state)
+    # representation invariants on the native objects (the same as in the symbolic check_state)
     inv = None
     for n_, st_ in enumerate(steps):
         for k_, r_ in (st_.get('raw') or {}).items():
@@ -240,6 +240,8 @@ def native_replay(program, nslots=3, nbufs=3, sanitize=True, tag='replay'):
                 inv = inv or 'step %d: slot %d is flagged both as owning its storage and as bound to user storage' % (n_, k_)
             elif r_['size'] != r_['dim'] * r_['dim']:
                 inv = inv or 'step %d: slot %d has dimension %d but size %d' % (n_, k_, r_['dim'], r_['size'])
+            elif r_['isinit'] and not r_['comp']:
+                inv = inv or 'step %d: slot %d is flagged as owning its storage but holds no block' % (n_, k_)
             elif not r_['isinit'] and not r_['isinit_d'] and r_['size'] != 0:
                 inv = inv or 'step %d: slot %d neither owns nor borrows storage but has size %d' % (n_, k_, r_['size'])
     if p.returncode != 0 or 'ERROR: AddressSanitizer' in p.stderr or 'runtime error' in p.stderr or 'LeakSanitizer' in p.stderr:
